@@ -140,6 +140,7 @@ def main():
             "enable": "checks export CIJ_VERIF_TRACE=1 before importing cij (harness/run.py); /repo is an editable install, nothing is rebuilt",
             "baseline_off_cmd": "cd /repo && env -u CIJ_VERIF_TRACE /venv/bin/python -m pytest -ra -q -p no:cacheprovider --timeout=900 --continue-on-collection-errors",
             "source_commits": ["0f4d419"],
+            "fix_commits": ["393c885", "6e131f8", "f881cec", "032db5b", "6a649a8", "1074a5f", "986a544", "e799c67", "c6bb171", "921871f", "0b120f4"],
             "add_only": True,
         },
         "engines": [
